@@ -446,7 +446,7 @@ func init() {
 	})
 	runner.Register(&runner.Check{
 		ID: "C07", Level: "exploration",
-		Rule:        "PRNG sequences of addPeer/addPeerIR/addNode/updateState/updateStateIR/deleteNode over 6 node keys driven through all presence classes (legacy only, structured only, both, neither), states {0,1,2,3,4,-1,255}, malformed keys and short blobs, signer combinations {node+Alphabet, node only, Alphabet only, other node+Alphabet, node+Majority, nobody}; a model predicts effect/refusal and notifications; both candidate lists are read after every call. distinct = (method, signers, presence/state/key-length class, outcome).",
+		Rule:        "PRNG sequences of addPeer/addPeerIR/addNode/updateState/updateStateIR/deleteNode over 6 node keys driven through all presence classes (legacy only, structured only, both, neither), states {0,1,2,3,4,-1,255}, malformed keys and short blobs, signer combinations {node+Alphabet, node only, Alphabet only, other node+Alphabet, node+Majority, nobody}; a model predicts effect/refusal and notifications; both candidate lists are read after every call. distinct = (method, signers, presence/state/key-length class, outcome). Signer combinations include the node or the Alphabet signing with scope None and the node's signature restricted to another contract: no witness.",
 		Assumptions: tb, Batches: tier(192, 2048), Chunk: 8,
 		Floors: []string{"addPeer@neither", "addPeerIR@legacy", "addNode@neither", "addNode@legacy", "updateState@both", "updateStateIR@v2", "deleteNode@both", "updateState:inert", "addNode:inert", "re-announced-with-identical-information-while-not-online"},
 		Run:    runC07,
